@@ -111,6 +111,9 @@ def run_check(pid, tier, jobs):
         print(f"HARNESS-NOTE {pid}: coverage guard not met: {vacuous}", file=sys.stderr)
         if rc == 0:
             rc = 3
+    if res.status.get("exception") and res.exceptions:
+        e = res.exceptions[0]
+        print(f"HARNESS-NOTE {pid}: {res.status['exception']} execution(s) ended with an exception, first: {e['exc']} in world {json.dumps(jsonable(e['desc']))[:300]} dev={e['dev']}", file=sys.stderr)
     print(
         f"{pid} {tier}: executions={res.executions} states={len(res.states)} transitions={len(res.transitions)} "
         f"outcomes={len(res.outcomes)} nontrivial={len(res.nontrivial)} status={dict(res.status)} "
